@@ -468,6 +468,15 @@ func (g *sqlGen) union() *Decl {
 		m := g.addDecl(&Decl{Name: g.fresh(un.Name + "Num"), Kind: DNamed, Under: Basic("int")}, "other.go")
 		m.Impls = []*Impl{{Union: un}}
 	}
+	if g.pr(0.35) { // a named slice / map member: nil values are written as "Data": null
+		under := Slice(Basic(g.pick("int", "string")))
+		if g.pr(0.4) {
+			under = Map(Basic("string"), Basic("bool"))
+		}
+		m := g.addDecl(&Decl{Name: g.fresh(un.Name + "Seq"), Kind: DNamed, Under: under}, "other.go")
+		m.Impls = []*Impl{{Union: un}}
+		g.p.Feature("sql:union-member-nilable")
+	}
 	return un
 }
 
